@@ -125,7 +125,7 @@ func (am *YAMLAccountManager) Update(account hotline.Account, newLogin string) e
 		return err
 	}
 
-	if err := os.WriteFile(filepath.Join(am.accountDir, newLogin+".yaml"), out, 0644); err != nil {
+	if err := os.WriteFile(filepath.Join(am.accountDir, path.Join("/", newLogin)+".yaml"), out, 0644); err != nil {
 		return fmt.Errorf("error writing account file: %w", err)
 	}
 
